@@ -84,3 +84,17 @@ Theorem corr_lies_between_minus_one_and_one :
     corr_signed_square f g (Some a) (Some b) 0 lc = Ok (Some r) -> - (1) <= r /\ r <= 1.
 Proof. exact corr_bounded. Qed.
 Print Assumptions corr_lies_between_minus_one_and_one.
+
+(* var over a window is non-negative, and wherever corr(f, f) is defined it is one *)
+Require Import SC.Proofs.CorrSelfFacts.
+
+Theorem var_over_a_window_is_non_negative :
+  forall (f : stairsQ) lo hi (x : Qc), wf f -> clipped_var f lo hi = Ok (Some x) -> 0 <= x.
+Proof. exact var_nonneg. Qed.
+Print Assumptions var_over_a_window_is_non_negative.
+
+Theorem corr_of_f_with_itself_is_one :
+  forall (f : stairsQ) (a b : Qc) lc (r : Qc), wf f -> minimal f ->
+    corr_signed_square f f (Some a) (Some b) 0 lc = Ok (Some r) -> r = 1.
+Proof. exact corr_self_is_one. Qed.
+Print Assumptions corr_of_f_with_itself_is_one.
